@@ -3,6 +3,7 @@ package verifsim
 import (
 	"context"
 	"fmt"
+	"io"
 	"runtime"
 	"strconv"
 	"strings"
@@ -197,7 +198,7 @@ func (pl *procLayer) run(ctx context.Context, hc interp.HandlerContext, info *Ex
 			}
 			b := info.wbuf[:len(act.Data)]
 			copy(b, act.Data)
-			_, _ = w.Write(b)
+			n, werr := w.Write(b)
 			for i := range b {
 				b[i] = 0xAA
 			}
@@ -205,6 +206,15 @@ func (pl *procLayer) run(ctx context.Context, hc interp.HandlerContext, info *Ex
 				pl.onWrite("")
 			}
 			c.NoteData("exec-wrote", info.Key, "", info)
+			// os/exec reports a failed or short copy of the process's output as the command's error
+			if werr == nil && n != len(act.Data) {
+				werr = io.ErrShortWrite
+			}
+			if werr != nil {
+				c.Count("fault_output_write_error")
+				return werr
+			}
+			continue
 		case "exit":
 			if act.Code == 0 {
 				return nil
